@@ -8,7 +8,7 @@
    transformation() followed by conversion_surface_params(). *)
 From Coq Require Import List ZArith Bool Reals Lra.
 From T4V Require Import Base.Scalar C04.Vec C04.Model C04.Spec C04.ProofsFrame C04.ProofsConvert
-  C04.ProofsQuad C04.ProofsSurf C04.ProofsMatrix C04.ProofsCard C04.ProofsTorus C04.ProofsMatrix5 C04.ProofsCompose.
+  C04.ProofsQuad C04.ProofsSurf C04.ProofsMatrix C04.ProofsCard C04.ProofsTorus C04.ProofsMatrix5 C04.ProofsCompose C04.ProofsAdjust.
 Import ListNotations.
 Open Scope R_scope.
 
@@ -85,6 +85,18 @@ Theorem C04_frame_transform_torus : forall (o : R3) (b : M3 R) c u cp nap (p' : 
 Proof. exact frame_transform_torus. Qed.
 Print Assumptions C04_frame_transform_torus.
 
+(* torus, NO guard on the moved axis: the written surface is exactly the torus with the
+   moved centre and the same radii about an axis a' which is the moved axis itself or the
+   coordinate axis numpy.allclose snapped it to, with |a' x axis|^2 <= tiny = 2e-16 *)
+Theorem C04_frame_transform_torus_total : forall (o : R3) (b : M3 R) c u cp nap,
+  rows_orthonormal b -> norm2 u = 1 ->
+  exists t a', tr_convert RS (vlist o ++ mlist b) (mkMS KT c u cp nap) = Ok [(t, 1%Z)] /\
+    (forall p', t4val t (to_main o b p') = msense (mkMS KT (to_main o b c) a' cp nap) (to_main o b p')) /\
+    norm2 a' = 1 /\ (a' = tvec b u \/ norm2 (cross a' (tvec b u)) <= tiny) /\
+    (a' = tvec b u -> forall p', t4val t (to_main o b p') = msense (mkMS KT c u cp nap) p').
+Proof. exact frame_transform_torus_total. Qed.
+Print Assumptions C04_frame_transform_torus_total.
+
 (* ---------- abbreviated matrices ([rotation] = orthonormal rows, det = 1;
    [agrees pat b] = every supplied entry of the pattern is unchanged) ---------- *)
 Theorem C04_normalize_matrix_9_reproduces : forall b : M3 R,
@@ -138,6 +150,21 @@ Theorem C04_adjust_matrix_fixpoint : forall m : M3 R,
   rows_orthonormal m -> clip_ok_m m -> adjust_matrix RS (mlist m) = Ok (mlist m).
 Proof. exact adjust_matrix_fixpoint. Qed.
 Print Assumptions C04_adjust_matrix_fixpoint.
+
+(* ... and on ANY nine numbers (skewed, non-unit, improper): if adjust_matrix returns, the
+   result is entrywise within 1e-10 of a matrix with orthonormal rows and columns, and a
+   second pass changes nothing *)
+Theorem C04_adjust_matrix_near_orthonormal : forall (m : M3 R) (l : list R),
+  adjust_matrix RS (mlist m) = Ok l ->
+  exists out q : M3 R, l = mlist out /\ rows_orthonormal q /\ rows_orthonormal (transpose q) /\ close_m out q.
+Proof. exact adjust_matrix_near_orthonormal. Qed.
+Print Assumptions C04_adjust_matrix_near_orthonormal.
+
+Theorem C04_adjust_matrix_idempotent : forall (m : M3 R) (l : list R),
+  adjust_matrix RS (mlist m) = Ok l -> clip_ok_m (adjust_cols RS m) ->
+  adjust_matrix RS l = Ok l.
+Proof. exact adjust_matrix_idempotent. Qed.
+Print Assumptions C04_adjust_matrix_idempotent.
 
 (* ---------- cards ---------- *)
 Theorem C04_to_cos_deg : forall a : R, to_cos RS a = cos (a * PI / 180).
